@@ -38,6 +38,7 @@ type Block struct {
 	Restart bool   `json:"restart,omitempty"` // clean stop/start after this block's commit
 	Crash   string `json:"crash,omitempty"`   // "begin" | "tx:<k>" | "end": crash at that point, restart, replay the block
 	CheckTx []int  `json:"checktx,omitempty"` // indexes of ops additionally run through CheckTx before the block
+	Export  bool   `json:"export,omitempty"`  // C18: export the application state after this block's commit
 }
 
 // Plan is the complete, explicit schedule of one run.
